@@ -1,5 +1,731 @@
-import EnvVerif.Lemmas.Basic
+/-
+  Props/C04.lean — C04: every envelope emitted is canonical and well-formed.
+  Every constructor establishes `Canon`, every operation preserves it (arguments assumed to
+  satisfy the invariant), so every finite history yields `Inv` envelopes.  Where an
+  operation creates an elided / compressed placeholder carrying the digest of an element,
+  32-byte validity of that digest is needed; it follows from `WF` and the explicit
+  hypothesis `hH : ∀ b, (h.H b).Valid` (the hash returns 32-byte values).  Nothing is
+  assumed about `Aead` / `Deflate`.
+-/
+import EnvVerif.Props.C01
+import EnvVerif.Lemmas.Grammar
 namespace EnvVerif
-/-- placeholder while the property theorems are being written -/
-theorem c04_sort_asc_id {as : List Env} (hs : AscDigests as) : sortByDigest as = as := sortByDigest_of_asc hs
+open Env
+
+section
+variable (h : Hash) (A : Aead) (Z : Deflate)
+
+/-! ### 1. constructors establish `Canon` (and, with C01, `Inv`) -/
+
+theorem newLeaf_canon (c : Cbor) : Canon (newLeaf h c) := by simp [newLeaf]
+
+theorem newKnownValue_canon (v : Nat) : Canon (newKnownValue h v) := by simp [newKnownValue]
+
+theorem newAssertion_canon {p o : Env} (hp : Canon p) (ho : Canon o) : Canon (newAssertion h p o) := by
+  simp [newAssertion, hp, ho]
+
+theorem newWrapped_canon {e : Env} (he : Canon e) : Canon (newWrapped h e) := by simp [newWrapped, he]
+
+theorem newElided_canon {d : Digest} (hd : d.Valid) : Canon (newElided d) := by simp [newElided, hd]
+
+theorem mkNode_canon_of {s : Env} {as : List Env} (hs : Canon s) (has : ∀ a ∈ as, Canon a)
+    (hne : as ≠ []) (hd : as.Pairwise (fun a b => a.digest ≠ b.digest))
+    (hslot : ∀ a ∈ as, a.slotOk = true) : Canon (mkNode h s as) :=
+  mkNode_canon h hs ((CanonList_iff as).2 has) hne hd hslot
+
+theorem newNodeUnchecked_canon {s r : Env} {as : List Env} (hs : Canon s) (has : ∀ a ∈ as, Canon a)
+    (hd : as.Pairwise (fun a b => a.digest ≠ b.digest)) (hslot : ∀ a ∈ as, a.slotOk = true)
+    (hr : newNodeUnchecked h s as = .ok r) : Canon r := by
+  obtain ⟨hne, rfl⟩ := (newNodeUnchecked_ok h).1 hr
+  exact mkNode_canon_of h hs has hne hd hslot
+
+/-- `newNode` checks the slots itself -/
+theorem newNode_canon {s r : Env} {as : List Env} (hs : Canon s) (has : ∀ a ∈ as, Canon a)
+    (hd : as.Pairwise (fun a b => a.digest ≠ b.digest)) (hr : newNode h s as = .ok r) : Canon r := by
+  obtain ⟨hslot, hne, rfl⟩ := (newNode_ok h).1 hr
+  exact mkNode_canon_of h hs has hne hd hslot
+
+theorem newLeaf_inv (c : Cbor) : Inv h (newLeaf h c) := ⟨newLeaf_wf h c, newLeaf_canon h c⟩
+
+theorem newKnownValue_inv (v : Nat) : Inv h (newKnownValue h v) :=
+  ⟨newKnownValue_wf h v, newKnownValue_canon h v⟩
+
+theorem newAssertion_inv {p o : Env} (hp : Inv h p) (ho : Inv h o) : Inv h (newAssertion h p o) :=
+  ⟨newAssertion_wf h hp.1 ho.1, newAssertion_canon h hp.2 ho.2⟩
+
+theorem newWrapped_inv {e : Env} (he : Inv h e) : Inv h (newWrapped h e) :=
+  ⟨newWrapped_wf h he.1, newWrapped_canon h he.2⟩
+
+theorem newElided_inv {d : Digest} (hd : d.Valid) : Inv h (newElided d) :=
+  ⟨newElided_wf h d, newElided_canon hd⟩
+
+theorem mkNode_inv {s : Env} {as : List Env} (hs : Inv h s) (has : ∀ a ∈ as, Inv h a)
+    (hne : as ≠ []) (hd : as.Pairwise (fun a b => a.digest ≠ b.digest))
+    (hslot : ∀ a ∈ as, a.slotOk = true) : Inv h (mkNode h s as) :=
+  ⟨mkNode_wf_of h hs.1 (fun a ha => (has a ha).1),
+   mkNode_canon_of h hs.2 (fun a ha => (has a ha).2) hne hd hslot⟩
+
+theorem newNodeUnchecked_inv {s r : Env} {as : List Env} (hs : Inv h s) (has : ∀ a ∈ as, Inv h a)
+    (hd : as.Pairwise (fun a b => a.digest ≠ b.digest)) (hslot : ∀ a ∈ as, a.slotOk = true)
+    (hr : newNodeUnchecked h s as = .ok r) : Inv h r :=
+  ⟨newNodeUnchecked_wf h hs.1 (fun a ha => (has a ha).1) hr,
+   newNodeUnchecked_canon h hs.2 (fun a ha => (has a ha).2) hd hslot hr⟩
+
+theorem newNode_inv {s r : Env} {as : List Env} (hs : Inv h s) (has : ∀ a ∈ as, Inv h a)
+    (hd : as.Pairwise (fun a b => a.digest ≠ b.digest)) (hr : newNode h s as = .ok r) : Inv h r :=
+  ⟨newNode_wf h hs.1 (fun a ha => (has a ha).1) hr,
+   newNode_canon h hs.2 (fun a ha => (has a ha).2) hd hr⟩
+
+/-! ### 2. operations preserve `Canon` -/
+
+theorem addAssertionEnvelope_canon {e a r : Env} (he : Canon e) (ha : Canon a)
+    (hr : addAssertionEnvelope h e a = .ok r) : Canon r := by
+  unfold addAssertionEnvelope at hr
+  split at hr
+  · cases hr
+  · rename_i hslot
+    simp only [Bool.not_eq_false, Bool.not_eq_eq_eq_not, Bool.not_true] at hslot
+    split at hr
+    · rename_i s as d
+      split at hr
+      · injection hr with hr; subst hr; exact he
+      · rename_i hany
+        obtain ⟨hne, rfl⟩ := (newNodeUnchecked_ok h).1 hr
+        simp only [Canon_node] at he
+        simp only [Bool.not_eq_true] at hany
+        refine mkNode_canon h he.1 ?_ hne (distinct_append_singleton he.2.2.2.1 hany) ?_
+        · rw [CanonList_iff] at *
+          intro x hx
+          rcases List.mem_append.1 hx with hx | hx
+          · exact he.2.1 x hx
+          · simp only [List.mem_singleton] at hx; subst hx; exact ha
+        · intro x hx
+          rcases List.mem_append.1 hx with hx | hx
+          · exact he.2.2.2.2 x hx
+          · simp only [List.mem_singleton] at hx; subst hx; exact hslot
+    · obtain ⟨hne, rfl⟩ := (newNodeUnchecked_ok h).1 hr
+      exact mkNode_canon h (canon_subject he) (by simpa using ha) hne (by simp [DistinctDigests])
+        (by simpa using hslot)
+
+theorem removeAssertion_canon {e t r : Env} (he : Canon e) (hr : removeAssertion h e t = .ok r) :
+    Canon r := by
+  simp only [removeAssertion] at hr
+  split at hr
+  · rename_i i hi
+    split at hr
+    · injection hr with hr; subst hr; exact canon_subject he
+    · obtain ⟨hne, rfl⟩ := (newNodeUnchecked_ok h).1 hr
+      have h1 := canon_assertions he
+      rw [CanonList_iff] at h1
+      refine mkNode_canon h (canon_subject he) ?_ hne
+        ((canon_assertions_asc he).sublist (List.eraseIdx_sublist _ _)).distinct
+        (fun x hx => canon_assertions_slotOk he x (List.mem_of_mem_eraseIdx hx))
+      rw [CanonList_iff]
+      exact fun x hx => h1 x (List.mem_of_mem_eraseIdx hx)
+  · injection hr with hr; subst hr; exact he
+
+theorem replaceAssertion_canon {e a b r : Env} (he : Canon e) (hb : Canon b)
+    (hr : replaceAssertion h e a b = .ok r) : Canon r := by
+  obtain ⟨e', h1, h2⟩ := Res.bind_eq_ok.1 hr
+  exact addAssertionEnvelope_canon h (removeAssertion_canon h he h1) hb h2
+
+theorem addAll_canon {e r : Env} {as : List Env} (he : Canon e) (has : ∀ a ∈ as, Canon a)
+    (hr : addAll h e as = .ok r) : Canon r :=
+  foldl_bind_inv (P := Canon) (Q := Canon) (fun x a => addAssertionEnvelope h x a)
+    (fun _ _ _ hx ha hs => addAssertionEnvelope_canon h hx ha hs) as (.ok e) r
+    (fun x hx => by injection hx with hx; subst hx; exact he) has hr
+
+theorem replaceSubject_canon {e s r : Env} (he : Canon e) (hs : Canon s)
+    (hr : replaceSubject h e s = .ok r) : Canon r := by
+  refine foldl_bind_inv (P := Canon) (Q := Canon)
+    (fun x a => match addAssertionEnvelope h x a with
+      | .ok y => .ok y
+      | .err _ => .panic "assertions.rs:replace_subject:unwrap"
+      | .panic p => .panic p)
+    ?_ e.assertions (.ok s) r (fun x hx => by injection hx with hx; subst hx; exact hs)
+    ((CanonList_iff _).1 (canon_assertions he)) hr
+  intro x a r hx ha hstep
+  split at hstep
+  · rename_i y hy; injection hstep with hstep; subst hstep
+    exact addAssertionEnvelope_canon h hx ha hy
+  · cases hstep
+  · cases hstep
+
+theorem wrap_canon {e : Env} (he : Canon e) : Canon (wrap h e) := newWrapped_canon h he
+
+theorem unwrap_canon {e r : Env} (he : Canon e) (hr : unwrap e = .ok r) : Canon r := by
+  unfold unwrap at hr
+  have hs := canon_subject he
+  split at hr
+  · rename_i inner d heq
+    injection hr with hr; subst hr
+    rw [heq] at hs; exact (Canon_wrapped _ _).1 hs
+  · cases hr
+
+theorem subject_canon {e : Env} (he : Canon e) : Canon e.subject := canon_subject he
+
+theorem elide_canon (hH : ∀ b, (h.H b).Valid) {e : Env} (hw : WF h e) (hc : Canon e) :
+    Canon (elide e) := by
+  have hv := digest_valid hH hw hc
+  unfold elide; split
+  · exact hc
+  · simpa [newElided] using hv
+
+mutual
+theorem elideSet_canon (hH : ∀ b, (h.H b).Valid) (T : Digest → Bool) (rev : Bool) (act : Action) :
+    (e r : Env) → WF h e → Canon e → elideSet h A Z T rev act e = .ok r → Canon r
+  | .assertion p o d, r, hw, hc, hr => by
+    have hv := digest_valid hH hw hc
+    simp only [elideSet] at hr
+    split at hr
+    · exact obscure_canon A Z hv hc hr
+    · split at hr
+      · rename_i p' hp'
+        split at hr
+        · rename_i o' ho'
+          split at hr
+          · injection hr with hr; subst hr
+            simp only [WF_assertion] at hw
+            simp only [Canon_assertion] at hc
+            simp [newAssertion, elideSet_canon hH T rev act p p' hw.1 hc.1 hp',
+              elideSet_canon hH T rev act o o' hw.2.1 hc.2 ho']
+          · cases hr
+        · cases hr
+        · cases hr
+      · cases hr
+      · cases hr
+  | .node s as d, r, hw, hc, hr => by
+    have hv := digest_valid hH hw hc
+    simp only [elideSet] at hr
+    split at hr
+    · exact obscure_canon A Z hv hc hr
+    · split at hr
+      · rename_i s' hs'
+        split at hr
+        · cases hr
+        · split at hr
+          · rename_i as' has'
+            simp only [WF_node] at hw
+            simp only [Canon_node] at hc
+            obtain ⟨hne, rfl⟩ := (newNodeUnchecked_ok h).1 hr
+            have hdig := elideSetList_digests h A Z T rev act as as' has'
+            exact mkNode_canon h (elideSet_canon hH T rev act s s' hw.1 hc.1 hs')
+              (elideSetList_canon hH T rev act as as' hw.2.1 hc.2.1 has') hne
+              (hc.2.2.2.1.of_map_eq hdig).distinct
+              (elideSetList_slotOk h A Z T rev act as as' hc.2.2.2.2 has')
+          · cases hr
+          · cases hr
+      · cases hr
+      · cases hr
+  | .wrapped e d, r, hw, hc, hr => by
+    have hv := digest_valid hH hw hc
+    simp only [elideSet] at hr
+    split at hr
+    · exact obscure_canon A Z hv hc hr
+    · split at hr
+      · rename_i e' he'
+        split at hr
+        · cases hr
+        · injection hr with hr; subst hr
+          simp only [WF_wrapped] at hw
+          simp only [Canon_wrapped] at hc
+          simp [newWrapped, elideSet_canon hH T rev act e e' hw.1 hc he']
+      · cases hr
+      · cases hr
+  | .leaf c d, r, hw, hc, hr => by
+    simp only [elideSet] at hr; exact elideSet_canon_atom A Z (digest_valid hH hw hc) hc hr
+  | .elided d, r, hw, hc, hr => by
+    simp only [elideSet] at hr; exact elideSet_canon_atom A Z (digest_valid hH hw hc) hc hr
+  | .knownValue v d, r, hw, hc, hr => by
+    simp only [elideSet] at hr; exact elideSet_canon_atom A Z (digest_valid hH hw hc) hc hr
+  | .encrypted m d, r, hw, hc, hr => by
+    simp only [elideSet] at hr; exact elideSet_canon_atom A Z (digest_valid hH hw hc) hc hr
+  | .compressed c d, r, hw, hc, hr => by
+    simp only [elideSet] at hr; exact elideSet_canon_atom A Z (digest_valid hH hw hc) hc hr
+theorem elideSetList_canon (hH : ∀ b, (h.H b).Valid) (T : Digest → Bool) (rev : Bool) (act : Action) :
+    (as rs : List Env) → WFList h as → CanonList as → elideSetList h A Z T rev act as = .ok rs →
+      CanonList rs
+  | [], rs, _, _, hr => by simp only [elideSetList] at hr; injection hr with hr; subst hr; simp
+  | a :: as, rs, hw, hc, hr => by
+    simp only [elideSetList] at hr
+    split at hr
+    · rename_i a' ha'
+      split at hr
+      · cases hr
+      · split at hr
+        · rename_i as' has'
+          injection hr with hr; subst hr
+          simp only [WFList_cons] at hw
+          simp only [CanonList_cons] at hc ⊢
+          exact ⟨elideSet_canon hH T rev act a a' hw.1 hc.1 ha',
+            elideSetList_canon hH T rev act as as' hw.2 hc.2 has'⟩
+        · cases hr
+        · cases hr
+    · cases hr
+    · cases hr
+end
+
+theorem compress_canon (hH : ∀ b, (h.H b).Valid) {e r : Env} (hw : WF h e) (hc : Canon e)
+    (hr : compress Z e = .ok r) : Canon r := by
+  obtain ⟨c, rfl⟩ := compress_ok Z hr
+  simpa using digest_valid hH hw hc
+
+theorem compressSubject_canon (hH : ∀ b, (h.H b).Valid) {e r : Env} (hw : WF h e) (hc : Canon e)
+    (hr : compressSubject h Z e = .ok r) : Canon r := by
+  unfold compressSubject at hr
+  split at hr
+  · injection hr with hr; subst hr; exact hc
+  · obtain ⟨s, h1, h2⟩ := Res.bind_eq_ok.1 hr
+    exact replaceSubject_canon h hc (compress_canon h Z hH (wf_subject hw) (canon_subject hc) h1) h2
+
+theorem encryptSubject_canon {key nonce : Bytes} {e r : Env} (he : Canon e)
+    (hr : encryptSubject h A key nonce e = .ok r) : Canon r := by
+  unfold encryptSubject at hr
+  split at hr
+  · rename_i s as d
+    simp only [Canon_node] at he
+    split at hr
+    · cases hr
+    · split at hr
+      · rename_i es hes
+        obtain ⟨d', rfl, hd'⟩ := newEncryptedUnwrap_ok hes
+        split at hr
+        · rename_i r' hr'
+          dsimp only at hr
+          split at hr
+          · injection hr with hr; subst hr
+            exact newNodeUnchecked_canon h (by simpa using optDigest_valid hd')
+              ((CanonList_iff as).1 he.2.1) he.2.2.2.1.distinct he.2.2.2.2 hr'
+          · cases hr
+        · cases hr
+        · cases hr
+      · cases hr
+      · cases hr
+  · cases hr
+  · cases hr
+  · split at hr
+    · rename_i r' hr'
+      obtain ⟨d', rfl, hd'⟩ := newEncryptedUnwrap_ok hr'
+      dsimp only at hr
+      split at hr
+      · injection hr with hr; subst hr; simpa using optDigest_valid hd'
+      · cases hr
+    · cases hr
+    · cases hr
+
+theorem encryptWhole_canon {key nonce : Bytes} {e r : Env} (he : Canon e)
+    (hr : encryptWhole h A key nonce e = .ok r) : Canon r := by
+  unfold encryptWhole at hr
+  split at hr
+  · rename_i r' hr'; injection hr with hr; subst hr
+    exact encryptSubject_canon h A (wrap_canon h he) hr'
+  · cases hr
+  · cases hr
+
+theorem unelide_canon {p e r : Env} (he : Canon e) (hr : unelide p e = .ok r) : Canon r := by
+  unfold unelide at hr
+  split at hr
+  · injection hr with hr; subst hr; exact he
+  · cases hr
+
+/-! ### 3. histories -/
+
+/-- one step of a non-decoding operation preserves the invariant -/
+theorem applyOp_inv (hH : ∀ b, (h.H b).Valid) {o : Op} {e r : Env} (he : Inv h e)
+    (ha : ∀ a ∈ o.args, Inv h a) (hd : o.decoding = false) (hr : applyOp h A Z o e = .ok r) :
+    Inv h r := by
+  refine ⟨applyOp_wf h A Z he.1 (fun a hm => (ha a hm).1) hr, ?_⟩
+  have hc := he.2
+  have hw := he.1
+  cases o <;> simp only [applyOp] at hr <;> simp only [Op.args] at ha <;>
+    simp only [Op.decoding, reduceCtorEq] at hd
+  case addAssertion a => exact addAssertionEnvelope_canon h hc (ha a (by simp)).2 hr
+  case removeAssertion t => exact removeAssertion_canon h hc hr
+  case replaceAssertion a b => exact replaceAssertion_canon h hc (ha b (by simp)).2 hr
+  case replaceSubject s => exact replaceSubject_canon h hc (ha s (by simp)).2 hr
+  case addAll as => exact addAll_canon h hc (fun a hm => (ha a hm).2) hr
+  case assertionWithObject o =>
+    injection hr with hr; subst hr; exact newAssertion_canon h hc (ha o (by simp)).2
+  case assertionWithPredicate p =>
+    injection hr with hr; subst hr; exact newAssertion_canon h (ha p (by simp)).2 hc
+  case wrap => injection hr with hr; subst hr; exact wrap_canon h hc
+  case unwrap => exact unwrap_canon hc hr
+  case subject => injection hr with hr; subst hr; exact subject_canon hc
+  case elide => injection hr with hr; subst hr; exact elide_canon h hH hw hc
+  case elideSet T rev act => exact elideSet_canon h A Z hH T rev act e r hw hc hr
+  case compress => exact compress_canon h Z hH hw hc hr
+  case compressSubject => exact compressSubject_canon h Z hH hw hc hr
+  case encryptSubject key nonce => exact encryptSubject_canon h A hc hr
+  case encryptWhole key nonce => exact encryptWhole_canon h A hc hr
+  case unelide o => exact unelide_canon (ha o (by simp)).2 hr
+
+/-- every envelope returned at any step of any finite history of non-decoding operations
+satisfies the invariant (for histories with decoding steps `history_wf` gives `WF`) -/
+theorem history_inv (hH : ∀ b, (h.H b).Valid) (ops : List Op) : ∀ (e0 : Env), Inv h e0 →
+    (∀ o ∈ ops, ∀ a ∈ o.args, Inv h a) → (∀ o ∈ ops, o.decoding = false) →
+    ∀ r, Res.ok r ∈ runHistory h A Z e0 ops → Inv h r := by
+  induction ops with
+  | nil => intro e0 _ _ _ r hr; simp [runHistory] at hr
+  | cons o os ih =>
+    intro e0 he ha hd r hr
+    simp only [runHistory] at hr
+    split at hr
+    · rename_i r1 hr1
+      have h1 := applyOp_inv h A Z hH he (ha o (by simp)) (hd o (by simp)) hr1
+      rcases List.mem_cons.1 hr with heq | hmem
+      · injection heq with heq; subst heq; exact h1
+      · exact ih r1 h1 (fun o' ho' => ha o' (by simp [ho'])) (fun o' ho' => hd o' (by simp [ho'])) r hmem
+    · rename_i x hx
+      simp only [List.mem_singleton] at hr
+      exact absurd hr.symm (hx r)
+
+/-- closure form: everything built from the constructors and the non-decoding operations,
+arguments built the same way, satisfies the invariant -/
+theorem produced_inv (hH : ∀ b, (h.H b).Valid) {e : Env} (hp : Produced h A Z false e) : Inv h e := by
+  induction hp with
+  | leaf c => exact newLeaf_inv h c
+  | knownValue v => exact newKnownValue_inv h v
+  | elided d hd => exact newElided_inv h hd
+  | op o e r _ _ hdec hr ihe iha => exact applyOp_inv h A Z hH ihe iha (hdec rfl) hr
+
+/-! ### 4. the serialisation of an invariant-satisfying envelope obeys the envelope grammar -/
+
+/-- an assertion slot serialises to a slot shape -/
+theorem slotOk_shape : (e : Env) → e.slotOk = true → SlotShape (cborOf e)
+  | .node s as d, hs => by
+    simp only [slotOk_node] at hs
+    simp only [cborOf]
+    exact .node _ _ (slotOk_shape s hs)
+  | .assertion p o d, _ => by simp only [cborOf]; exact .assertion _
+  | .elided d, _ => by simp only [cborOf]; exact .elided _
+  | .encrypted m d, _ => by simp only [cborOf, TAG_ENCRYPTED]; exact .encrypted _
+  | .compressed c d, _ => by simp only [cborOf, TAG_COMPRESSED]; exact .compressed _
+  | .leaf c d, hs => by simp at hs
+  | .wrapped e d, hs => by simp at hs
+  | .knownValue v d, hs => by simp at hs
+
+mutual
+theorem canon_grammar : (e : Env) → Canon e → Grammar (cborOf e)
+  | .node s as d, hc => by
+    simp only [Canon_node] at hc
+    simp only [cborOf, cborOfList_eq_map]
+    refine .node _ _ (canon_grammar s hc.1) (by simpa using hc.2.2.1) ?_ ?_
+    · intro c hcm
+      rw [← cborOfList_eq_map] at hcm
+      exact canon_grammarList as hc.2.1 c hcm
+    · intro c hcm
+      obtain ⟨a, ha, rfl⟩ := List.mem_map.1 hcm
+      exact slotOk_shape a (hc.2.2.2.2 a ha)
+  | .leaf c d, _ => by simp only [cborOf, TAG_LEAF]; exact .leaf _
+  | .wrapped e d, hc => by
+    simp only [cborOf, TAG_ENVELOPE]; exact .wrapped _ (canon_grammar e ((Canon_wrapped _ _).1 hc))
+  | .assertion p o d, hc => by
+    simp only [cborOf]
+    exact .assertion _ _ (canon_grammar p ((Canon_assertion _ _ _).1 hc).1)
+      (canon_grammar o ((Canon_assertion _ _ _).1 hc).2)
+  | .elided d, _ => by simp only [cborOf]; exact .elided _ (Digest.bytes_length d)
+  | .knownValue v d, _ => by simp only [cborOf]; exact .knownValue _
+  | .encrypted m d, _ => by
+    simp only [cborOf, TAG_ENCRYPTED, encMsgCbor]
+    split
+    · exact .encrypted3 _ _ _
+    · exact .encrypted4 _ _ _ _
+  | .compressed c d, _ => by
+    simp only [cborOf, TAG_COMPRESSED, compMsgCbor, digestCbor, TAG_DIGEST]
+    exact .compressed _ _ _ _ (Digest.bytes_length d)
+theorem canon_grammarList : (as : List Env) → CanonList as → ∀ c ∈ cborOfList as, Grammar c
+  | [], _ => by simp [cborOfList]
+  | a :: as, hc => by
+    simp only [CanonList_cons] at hc
+    simp only [cborOfList, List.mem_cons]
+    rintro c (rfl | hm)
+    · exact canon_grammar a hc.1
+    · exact canon_grammarList as hc.2 c hm
+end
+
+theorem inv_grammar {e : Env} (hi : Inv h e) : Grammar (cborOf e) := canon_grammar e hi.2
+
+theorem inv_taggedGrammar {e : Env} (hi : Inv h e) : TaggedGrammar (taggedCborOf e) := by
+  simp only [taggedCborOf, TAG_ENVELOPE, TaggedGrammar]; exact inv_grammar h hi
+
+/-- "encrypted elements carry a digest": a `WF` encrypted element has a non-empty `aad`
+(it decodes to the declared digest), so it serialises to the 4-element form -/
+theorem encrypted_carries_digest {m : EncMsg} {d : Digest} (hw : WF h (.encrypted m d)) :
+    cborOf (.encrypted m d) =
+      .tagged 40002 (.array [.bytes m.ciphertext, .bytes m.nonce, .bytes m.auth, .bytes m.aad]) ∧
+    m.optDigest = some d ∧ d.Valid := by
+  simp only [WF_encrypted] at hw
+  refine ⟨?_, hw, optDigest_valid hw⟩
+  have hne : m.aad ≠ [] := by
+    intro hnil
+    simp [EncMsg.optDigest, hnil, Cbor.dec?, Cbor.dec, Cbor.decItem, Cbor.decHead] at hw
+  simp [cborOf, TAG_ENCRYPTED, encMsgCbor, hne]
+
+/-! ### 6. named corollaries -/
+
+/-- removing the last assertion collapses the node to its subject -/
+theorem removeLast_collapses (s a t : Env) (d : Digest) (ht : t.digest = a.digest) :
+    removeAssertion h (.node s [a] d) t = .ok s := by
+  simp [removeAssertion, Env.assertions, findDigestIdx, ht, Env.subject]
+
+/-- adding an assertion whose digest is already present returns the receiver unchanged -/
+theorem addDuplicate_ignored (s a : Env) (as : List Env) (d : Digest) (hs : a.slotOk = true)
+    (hdup : ∃ x ∈ as, x.digest = a.digest) :
+    addAssertionEnvelope h (.node s as d) a = .ok (.node s as d) := by
+  obtain ⟨x, hx, hxd⟩ := hdup
+  have : as.any (fun x => x.digest == a.digest) = true := List.any_eq_true.2 ⟨x, hx, by simp [hxd]⟩
+  simp [addAssertionEnvelope, hs, this]
+
+/-- after `replace_subject` the assertions are again in strictly ascending digest order -/
+theorem replaceSubject_resorts {e s r : Env} (he : Canon e) (hs : Canon s)
+    (hr : replaceSubject h e s = .ok r) : AscDigests r.assertions :=
+  canon_assertions_asc (replaceSubject_canon h he hs hr)
+
+
+/-- the digests held in the structure agree with those recomputed from the children, at
+every element -/
+theorem inv_recompute {e : Env} (hi : Inv h e) : ∀ x ∈ elements e, x.digest = recompute h x :=
+  fun x hx => wf_recompute (mem_elements_wf h e x hi.1 hx)
+
+/-- the shape facts of C04 read off `Canon` at every node element: at least one assertion
+element, strictly ascending digests (so no two equal), every element an assertion slot -/
+theorem inv_node_shape {e : Env} (hi : Inv h e) : ∀ s as d, Env.node s as d ∈ elements e →
+    as ≠ [] ∧ AscDigests as ∧ (∀ a ∈ as, a.slotOk = true) ∧
+      as.Pairwise (fun a b => a.digest ≠ b.digest) := by
+  intro s as d hx
+  have hc := mem_elements_canon e _ hi.2 hx
+  simp only [Canon_node] at hc
+  exact ⟨hc.2.2.1, hc.2.2.2.1, hc.2.2.2.2, hc.2.2.2.1.distinct⟩
+
+/-! ### 7. operations that decode bytes return canonical envelopes
+
+This part depends on the strict-ordering check (`ascAdj`) the decoder performs in the
+`.array` branch of `envOfCbor`; everything above is independent of the decoder.  No
+hypothesis on the hash is needed here: a decoded elided / encrypted / compressed digest is
+32 bytes by construction. -/
+
+theorem ascAdj_asc : (as : List Env) → ascAdj as = true → AscDigests as
+  | [], _ => by simp [AscDigests]
+  | [_], _ => by simp [AscDigests]
+  | a :: b :: rest, hs => by
+    simp only [ascAdj, Bool.and_eq_true, decide_eq_true_eq] at hs
+    have ih := ascAdj_asc (b :: rest) hs.2
+    unfold AscDigests at ih ⊢
+    refine List.pairwise_cons.2 ⟨?_, ih⟩
+    intro x hx
+    rcases List.mem_cons.1 hx with rfl | hx
+    · exact hs.1
+    · exact Nat.lt_trans hs.1 ((List.pairwise_cons.1 ih).1 x hx)
+
+theorem decodeEncrypted_canon {item : Cbor} {e : Env} (he : decodeEncrypted item = .ok e) : Canon e := by
+  unfold decodeEncrypted at he
+  repeat' first | split at he | dsimp only at he
+  all_goals first
+    | (injection he with he; subst he; simpa using optDigest_valid ‹_ = some _›)
+    | cases he
+
+theorem decodeCompressed_canon {item : Cbor} {e : Env} (he : decodeCompressed item = .ok e) : Canon e := by
+  unfold decodeCompressed at he
+  repeat' split at he
+  all_goals first
+    | (injection he with he; subst he; simpa using digestOfCbor_valid ‹_ = some _›)
+    | cases he
+
+mutual
+theorem envOfCbor_canon : (c : Cbor) → (e : Env) → envOfCbor h c = .ok e → Canon e
+  | .tagged t item, e, he => by
+    simp only [envOfCbor] at he
+    split at he
+    · injection he with he; subst he; simp [newLeaf]
+    · split at he
+      · split at he
+        · rename_i x hx
+          injection he with he; subst he
+          simp [newWrapped, envOfCbor_canon item x hx]
+        · cases he
+        · cases he
+      · split at he
+        · exact decodeEncrypted_canon he
+        · split at he
+          · exact decodeCompressed_canon he
+          · cases he
+  | .bytes b, e, he => by
+    simp only [envOfCbor] at he
+    split at he
+    · rename_i d hd
+      injection he with he; subst he; simpa [newElided] using ofBytes_valid hd
+    · cases he
+  | .array [], e, he => by simp [envOfCbor] at he
+  | .array [_], e, he => by simp [envOfCbor] at he
+  | .array (x :: y :: rest), e, he => by
+    simp only [envOfCbor] at he
+    split at he
+    · rename_i s hs
+      split at he
+      · rename_i as has
+        have hs' := envOfCbor_canon x s hs
+        have has' := envOfCborList_canon (y :: rest) as has
+        split at he
+        · rename_i hasc
+          obtain ⟨hslot, hne, rfl⟩ := (newNode_ok h).1 he
+          exact mkNode_canon h hs' has' hne (ascAdj_asc as hasc).distinct hslot
+        · cases he
+      · cases he
+      · cases he
+    · cases he
+    · cases he
+  | .map [(k, v)], e, he => by
+    simp only [envOfCbor] at he
+    split at he
+    · rename_i p hp
+      split at he
+      · rename_i o ho
+        injection he with he; subst he
+        simp [newAssertion, envOfCbor_canon k p hp, envOfCbor_canon v o ho]
+      · cases he
+      · cases he
+    · cases he
+    · cases he
+  | .map [], e, he => by simp [envOfCbor] at he
+  | .map (_ :: _ :: _), e, he => by simp [envOfCbor] at he
+  | .uint v, e, he => by
+    simp only [envOfCbor] at he
+    injection he with he; subst he; simp [newKnownValue]
+  | .nint _, e, he => by simp [envOfCbor] at he
+  | .text _, e, he => by simp [envOfCbor] at he
+  | .simple _, e, he => by simp [envOfCbor] at he
+  | .float _, e, he => by simp [envOfCbor] at he
+theorem envOfCborList_canon : (cs : List Cbor) → (es : List Env) → envOfCborList h cs = .ok es →
+    CanonList es
+  | [], es, he => by simp only [envOfCborList] at he; injection he with he; subst he; simp
+  | c :: cs, es, he => by
+    simp only [envOfCborList] at he
+    split at he
+    · rename_i x hx
+      split at he
+      · rename_i xs hxs
+        injection he with he; subst he
+        simp [envOfCbor_canon c x hx, envOfCborList_canon cs xs hxs]
+      · cases he
+      · cases he
+    · cases he
+    · cases he
+end
+
+theorem decode_canon {b : Bytes} {e : Env} (he : decode h b = .ok e) : Canon e := by
+  unfold decode at he
+  split at he
+  · unfold envOfTaggedCbor at he
+    repeat' split at he
+    all_goals first
+      | exact envOfCbor_canon h _ _ he
+      | cases he
+  · cases he
+
+theorem uncompress_canon {e r : Env} (hr : uncompress h Z e = .ok r) : Canon r := by
+  unfold uncompress at hr
+  split at hr
+  · split at hr
+    · cases hr
+    · split at hr
+      · rename_i x hx
+        split at hr
+        · cases hr
+        · injection hr with hr; subst hr; exact decode_canon h hx
+      · cases hr
+      · cases hr
+  · cases hr
+
+theorem uncompressSubject_canon {e r : Env} (he : Canon e) (hr : uncompressSubject h Z e = .ok r) :
+    Canon r := by
+  unfold uncompressSubject at hr
+  split at hr
+  · obtain ⟨s, h1, h2⟩ := Res.bind_eq_ok.1 hr
+    have hs := uncompress_canon h Z h1
+    split at h2
+    · simp only [Canon_node] at he
+      exact newNodeUnchecked_canon h hs ((CanonList_iff _).1 he.2.1) he.2.2.2.1.distinct
+        he.2.2.2.2 h2
+    · injection h2 with h2; subst h2; exact hs
+  · injection hr with hr; subst hr; exact he
+
+theorem decryptSubject_canon {key : Bytes} {e r : Env} (he : Canon e)
+    (hr : decryptSubject h A key e = .ok r) : Canon r := by
+  unfold decryptSubject at hr
+  split at hr
+  · split at hr
+    · cases hr
+    · split at hr
+      · cases hr
+      · split at hr
+        · rename_i rs hrs
+          have hrs' := decode_canon h hrs
+          split at hr
+          · cases hr
+          · split at hr
+            · simp only [Canon_node] at he
+              split at hr
+              · rename_i r' hr'
+                split at hr
+                · cases hr
+                · injection hr with hr; subst hr
+                  exact newNodeUnchecked_canon h hrs' ((CanonList_iff _).1 he.2.1)
+                    he.2.2.2.1.distinct he.2.2.2.2 hr'
+              · cases hr
+              · cases hr
+            · injection hr with hr; subst hr; exact hrs'
+        · cases hr
+        · cases hr
+  · cases hr
+
+theorem decryptWhole_canon {key : Bytes} {e r : Env} (he : Canon e)
+    (hr : decryptWhole h A key e = .ok r) : Canon r := by
+  obtain ⟨x, h1, h2⟩ := Res.bind_eq_ok.1 hr
+  exact unwrap_canon (decryptSubject_canon h A he h1) h2
+
+
+/-- one step of any operation, decoding ones included, preserves the invariant -/
+theorem applyOp_inv_all (hH : ∀ b, (h.H b).Valid) {o : Op} {e r : Env} (he : Inv h e)
+    (ha : ∀ a ∈ o.args, Inv h a) (hr : applyOp h A Z o e = .ok r) : Inv h r := by
+  cases hd : o.decoding
+  · exact applyOp_inv h A Z hH he ha hd hr
+  · refine ⟨applyOp_wf h A Z he.1 (fun a hm => (ha a hm).1) hr, ?_⟩
+    have hc := he.2
+    cases o <;> simp only [Op.decoding, reduceCtorEq] at hd <;> simp only [applyOp] at hr
+    case decodeBytes b => exact decode_canon h hr
+    case reencode => exact decode_canon h hr
+    case uncompress => exact uncompress_canon h Z hr
+    case uncompressSubject => exact uncompressSubject_canon h Z hc hr
+    case decryptSubject key => exact decryptSubject_canon h A hc hr
+    case decryptWhole key => exact decryptWhole_canon h A hc hr
+
+/-- every envelope returned at any step of any finite history satisfies the invariant -/
+theorem history_inv_all (hH : ∀ b, (h.H b).Valid) (ops : List Op) : ∀ (e0 : Env), Inv h e0 →
+    (∀ o ∈ ops, ∀ a ∈ o.args, Inv h a) →
+    ∀ r, Res.ok r ∈ runHistory h A Z e0 ops → Inv h r := by
+  induction ops with
+  | nil => intro e0 _ _ r hr; simp [runHistory] at hr
+  | cons o os ih =>
+    intro e0 he ha r hr
+    simp only [runHistory] at hr
+    split at hr
+    · rename_i r1 hr1
+      have h1 := applyOp_inv_all h A Z hH he (ha o (by simp)) hr1
+      rcases List.mem_cons.1 hr with heq | hmem
+      · injection heq with heq; subst heq; exact h1
+      · exact ih r1 h1 (fun o' ho' => ha o' (by simp [ho'])) r hmem
+    · rename_i x hx
+      simp only [List.mem_singleton] at hr
+      exact absurd hr.symm (hx r)
+
+/-- closure form over all operations -/
+theorem produced_inv_all (hH : ∀ b, (h.H b).Valid) {dec : Bool} {e : Env}
+    (hp : Produced h A Z dec e) : Inv h e := by
+  induction hp with
+  | leaf c => exact newLeaf_inv h c
+  | knownValue v => exact newKnownValue_inv h v
+  | elided d hd => exact newElided_inv h hd
+  | op o e r _ _ _ hr ihe iha => exact applyOp_inv_all h A Z hH ihe iha hr
+
+end
 end EnvVerif
